@@ -209,8 +209,14 @@ fn finish(vdir: &str, prop: &str, tier: Tier, seed: u64, stats: &Stats, t0: Inst
     if let Some(x) = stats.exhaustive_all {
         coverage["exhaustive"] = json!(x);
     }
-    if !stats.notes.is_empty() {
-        coverage["notes"] = json!(stats.notes);
+    let mut notes = stats.notes.clone();
+    if let Ok(extra) = std::env::var("VERIF_EXTRA_NOTE") {
+        if !extra.is_empty() {
+            notes.push(extra);
+        }
+    }
+    if !notes.is_empty() {
+        coverage["notes"] = json!(notes);
     }
     let doc = json!({
         "property_id": prop,
@@ -222,7 +228,7 @@ fn finish(vdir: &str, prop: &str, tier: Tier, seed: u64, stats: &Stats, t0: Inst
         "wall_s": t0.elapsed().as_secs_f64(),
         "violations": violations,
     });
-    let dir = format!("{}/evidence", vdir);
+    let dir = std::env::var("VERIF_EVIDENCE_DIR").unwrap_or_else(|_| format!("{}/evidence", vdir));
     let _ = std::fs::create_dir_all(&dir);
     std::fs::write(format!("{}/{}.json", dir, prop), serde_json::to_string_pretty(&doc).unwrap()).expect("write evidence");
 }
